@@ -102,13 +102,13 @@ def correspond(ctx, fam, cases, canon=vlib.canon_default, name=None, nontrivial=
     """like Check.correspond, but the implementation side is the wheel under python3.
     Returns (disagreements [(case, model, py)], model observations, python observations)."""
     name = name or fam
-    m = vlib.run_model(fam, cases)
+    m = vlib.run_model(fam, cases, line_timeout=60)
     i = run_py(fam, cases)
     dis = []
     skipped = 0
     for c, a, b in zip(cases, m, i):
         ctx.evaluations += 1
-        if a is not None and skip(a):
+        if a is not None and (a.startswith("skip model-") or skip(a)):   # model gave up on the line (time limit): not evaluated
             skipped += 1
             continue
         if c not in ctx.distinct:
